@@ -57,6 +57,7 @@ pub fn replay(property: &str, part: &str, case: &serde_json::Value) -> Option<Re
     Some(match (property, part) {
         ("C07", "roundtrip") => replay_part(&c07::RoundTrip, case, 1),
         ("C07", "prefixes") => replay_part(&c07::Prefixes, case, 1),
+        ("C07", "encode-sequences") => replay_part(&c07::EncodeSequences, case, 1),
         ("C07", "arbitrary-bytes") => replay_part(&c07::ArbitraryBytes, case, 1),
         ("C16", "tables") => replay_part(&c16::Tables, case, 1),
         ("C18", "histories") => replay_part(&c18::Histories, case, 1),
@@ -66,6 +67,7 @@ pub fn replay(property: &str, part: &str, case: &serde_json::Value) -> Option<Re
         ("C11", "queued-calls") => replay_part(&c11::Queued, case, 1),
         ("C16", "over-the-wire") => replay_part(&c16::OverTheWire, case, 1),
         ("C18", "many-peers") => replay_part(&c18::ManyPeers, case, 1),
+        ("C18", "cancel-storm") => replay_part(&c18::CancelStorm, case, 1),
         ("C05", "close-notice-race") => replay_part(&c05::CloseNoticeRace, case, 3),
         ("C02", "traffic") => replay_part(&c02::Traffic(4_000_000), case, 1),
         ("C11", "calls") => replay_part(&c11::Calls, case, 1),
